@@ -139,16 +139,11 @@ func NewReadOnly(backing io.ReaderAt, idx index.Index, opts ...carv2.Option) (*R
 }
 
 func readVersion(at io.ReaderAt, opts ...carv2.Option) (uint64, error) {
-	var rr io.Reader
-	switch r := at.(type) {
-	case io.Reader:
-		rr = r
-	default:
-		var err error
-		rr, err = internalio.NewOffsetReadSeeker(r, 0)
-		if err != nil {
-			return 0, err
-		}
+	// Read positionally from the start: when the given io.ReaderAt is also an io.Reader its current
+	// read position says nothing about where the CAR begins.
+	rr, err := internalio.NewOffsetReadSeeker(at, 0)
+	if err != nil {
+		return 0, err
 	}
 	return carv2.ReadVersion(rr, opts...)
 }
